@@ -254,6 +254,7 @@ def alphabet():
             syms.append(dict(base, st=None, fn="f", fb="3132", mt=2))
             syms.append(dict(base, st=None, tags=[]))
     syms.append({"id": "a", "st": "exists"})
+    syms.append({"id": "a", "st": "unknown"})     # a final state too (what StreamToDict itself reports)
     syms.append({"id": None, "st": None, "fn": "g", "fb": "78", "mt": 2})
     return syms
 
@@ -261,7 +262,7 @@ def alphabet():
 def random_event(rng):
     e = {"id": rng.choice([None, "a", "a", "b", "b", "c"]),
          "st": rng.choice([None, None, "inprogress", "success", "fail", "exists", "skip", "xfail",
-                           "uxsuccess"])}
+                           "uxsuccess", "unknown"])}
     if rng.random() < 0.5:
         e["rc"] = rng.choice([None, "0", "0/1"])
     if rng.random() < 0.45:
